@@ -215,8 +215,8 @@ Section Chunk.
   Definition chunk_rows (T : nat) (d fill : A) (md : mode) (rows : list (crow A))
     : res (list (list A) * list nat) :=
     let N := length rows in
-    if (N * T =? 0)%nat
-    then Ok (map (fun _ => []) rows, map (fun _ => 0%nat) rows)  (* new_empty(x.shape), zeros *)
+    if (N =? 0)%nat
+    then Ok ([], [])  (* if not N: return x.new_empty(x.shape), slices.new_zeros((N,)) *)
     else
     bind (get_padding_buffers c_cells c_len c_lp c_rp T d md rows) (fun bufs =>
       let Tp := Nat.max (Nat.max (list_max (map c_lp rows)) (list_max (map c_chunk rows)))
@@ -264,7 +264,7 @@ Section Chunk.
              (x : list (list A)) (slices : list (Z * Z)) (lens : option (list nat))
     : res (list (list A) * list nat) :=
     let N := length x in
-    if (N * T =? 0)%nat then chunk_rows T d fill md (zip_crows T x slices lens)
+    if (N =? 0)%nat then chunk_rows T d fill md (zip_crows T x slices lens)
     else match lens with
          | Some l => if (length l =? N)%nat then chunk_rows T d fill md (zip_crows T x slices lens)
                      else ErrRuntime
